@@ -33,18 +33,25 @@ def run(run, binfo):
         # custom checks answer with any truthy / falsy value, not only True / False
         pool = [True, False, True, False, None, 0, '', 1, 'yes', 0.0, 2.5]
         custom = {'c4a': rng.choice(pool), 'c3a': rng.choice(pool), 'c4b': rng.choice(pool)}
-        registered = {n: None for n in names if rng.random() < 0.6}
+        registered = {n: rng.choice([None, None, ['system'], ['project'], ['domain', 'project']])
+                      for n in names if rng.random() < 0.6}
+        es = rng.random() < 0.5
         target = rng.choice([{}, {'user_id': 'u', 'k': 'x'}, {'user_id': 'v', 'k': 5, 'nested': {'a': [1, 2]}}])
         for q in rng.sample(names + ['g', 'unknown'], 3):
             roles = rng.choice(ROLESETS)
             creds = {'roles': roles, 'user_id': 'u', 'is_admin': rng.random() < 0.5, 'a': {'b': 'x'}}
+            sc = rng.random()
+            if sc < 0.25:
+                creds['system_scope'] = 'all'
+            elif sc < 0.45:
+                creds['domain_id'] = 'd1'
             by = rng.random()
             if by < 0.7:
                 rule = ('name', q)
             else:
                 rule = ('obj', rules.get(q, 'role:r0'), None)
             base = base_case(rules=rules, default=default, rule=rule, creds=creds, target=target,
-                             custom=custom, registered=registered,
+                             custom=custom, registered=registered, enforce_scope=es,
                              authorize=(rule[0] == 'name' and rng.random() < 0.4))
             g = variants(rng, base)
             groups.append((len(cases), len(g)))
